@@ -153,6 +153,20 @@ def pass_case(ctx, rng, k):
         with open(os.path.join(p, "TLE_noaa16.txt"), "w") as fh:
             fh.write(filegen.NOAA14_TLE)
         tdir = p
+    if tle == "ok" and k % 3 == 1:
+        # an element-set archive assembled from overlapping downloads: OLDER sets (20 days before the pass) occur three times
+        # each in front of the current ones - the nearest set is still the one to use
+        import os
+        p2 = os.path.join(ctx.scratch, "tle15dup")
+        if not os.path.isdir(p2):
+            os.makedirs(p2)
+            old_sets = filegen.retimed_tle(filegen.NOAA14_TLE, ["00300.04713399", "00302.96799836"]).splitlines(keepends=True)
+            text = "".join((old_sets[0] + old_sets[1]) * 3 + (old_sets[2] + old_sets[3]) * 3) + filegen.NOAA14_TLE
+            for nm in ("TLE_noaa14.txt", "TLE_noaa16.txt"):
+                with open(os.path.join(p2, nm), "w") as fh:
+                    fh.write(text)
+        tdir = p2
+        ctx.branches["tle-archive-with-duplicates"] += 1
     # on every other POD pass without usable TLE the clock-drift correction runs first: it is the first to ask for the
     # element set (and is skipped), the angle computation asks again
     drift_first = tle == "stale" and fam == "pod" and (k // len(combos)) % 2 == 0
